@@ -514,6 +514,20 @@ Proof.
   all: repeat split.
 Qed.
 
+(* Close (not yet closed) is Suspend followed by console.Close: same writes, same state *)
+Lemma close_is_suspend o x p :
+  (p = OpClose \/ p = OpKill \/ p = OpPanic) -> x_closed x = false ->
+  x_m (run_op o p x) = x_m (run_op o OpSuspend x) /\
+  (s_hung (x_m x) = false -> x_closed (run_op o p x) = true).
+Proof.
+  intros Hp Hc.
+  assert (E : run_op o p x = run_op o OpClose x) by (destruct Hp as [->|[->| ->]]; reflexivity).
+  rewrite E. unfold run_op. destruct (s_hung (x_m x)) eqn:Eh.
+  - split; [reflexivity|discriminate].
+  - unfold do_close, do_suspend. rewrite Hc, andb_false_r.
+    cbv beta iota delta [run_calls run_calls_f close_calls]. cbn [x_m x_closed]. split; reflexivity.
+Qed.
+
 Lemma close_restores other kitty0 appid0 honours fl d x t o p :
   (p = OpClose \/ p = OpKill \/ p = OpPanic) ->
   st_run fl d x -> run_inv other kitty0 appid0 honours fl d t ->
@@ -522,23 +536,13 @@ Lemma close_restores other kitty0 appid0 honours fl d x t o p :
   sem_toks (s_out (x_m x')) t = fresh_term other kitty0 (d_ustyle d) appid0 honours
   /\ st_closed x'.
 Proof.
-  intros Hp Hs Hi Hc.
-  assert (E : run_op o p (clear_out x) = run_op o OpClose (clear_out x)).
-  { destruct Hp as [->|[->| ->]]; reflexivity. }
-  rewrite E. clear E Hp p.
-  destruct x as [[fl' d' [nr nc ns nv] [lr lc ls lv] rf nu bf out pl hg] shn shl gn gl su cl].
-  unfold st_run, st_susp in Hs; cbn in Hs; destruct Hs as (? & ? & ? & ? & ? & ? & ? & ?); subst fl' d' nu bf pl hg su cl.
-  destruct t as [ck cu bt an fo sg al pa sy' un' th' ib ss ot ka ki cs po ap pe li ho px].
-  unfold run_inv in Hi; cbn in Hi.
-  destruct Hi as (?&?&?&?&?&?&?&?&?&?&?&?&?&?&?&?&?&?&Hap&Hib1&Hib2); subst ck bt an fo sg al pa sy' un' th' ss ot ka ki pe li ho px.
-  destruct fl as [sy un ex kk sx th a176 inb nm]; destruct d as [kf aid us]; cbn in Hc, Hap.
-  destruct a176; [rewrite (Hc eq_refl) | rewrite (Hap eq_refl)]; clear Hc Hap Hib1 Hib2.
-  all: destruct sy, un, ex, kk, sx, th, nm, nv, lv.
-  all: cbv zeta.
-  all: split.
-  all: try reflexivity.
-  all: vm_compute.
-  all: repeat split.
+  intros Hp Hs Hi Hc. cbv zeta.
+  assert (Hcl : x_closed (clear_out x) = false /\ s_hung (x_m (clear_out x)) = false).
+  { destruct x as [[? ? ? ? ? ? ? ? ? ?] ? ? ? ? ? ?]; cbn. split; apply Hs. }
+  destruct Hcl as [Hcl Hhu].
+  destruct (close_is_suspend o (clear_out x) p Hp Hcl) as [E1 E2].
+  destruct (suspend_restores other kitty0 appid0 honours fl d x t o Hs Hi Hc) as [A B].
+  rewrite E1. split; [exact A|]. split; [apply E2; exact Hhu|]. rewrite E1. apply B.
 Qed.
 
 
@@ -594,7 +598,7 @@ Lemma startup_factor o det d :
   startup o det d = startup_from (apply_quirks o (with_nomouse (o_nomouse o) det)) (o_nomouse o) d.
 Proof.
   unfold startup, startup_from, new_state.
-  cbv beta iota delta [run_calls new_calls]. cbv zeta.
+  cbv beta iota delta [run_calls run_calls_f new_calls]. cbv zeta.
   set (M := run_top send_queries _). destruct M. reflexivity.
 Qed.
 
@@ -617,6 +621,34 @@ Qed.
 
 
 (* ---------- the API protocol of a session ---------- *)
+(* ---------- New fails after start-up ---------- *)
+Definition failed_from (fl : flags) (nm : bool) (d : data) : mst :=
+  let m0 := mkM (flags0 nm) d cur0 cur0 false false [] [] false false in
+  let m1 := set_parser true (set_w true [] (s_out m0) m0) in
+  let m2 := set_fl fl (run_top send_queries m1) in
+  run_top suspend_script (run_leaf enable_modes (run_leaf enter_alt m2)).
+
+Lemma failed_new_factor o det d :
+  failed_new o det d = failed_from (apply_quirks o (with_nomouse (o_nomouse o) det)) (o_nomouse o) d.
+Proof.
+  unfold failed_new, failed_from, new_state.
+  cbv beta iota delta [run_calls_f new_calls]. cbv zeta.
+  set (M := run_top send_queries _). destruct M. reflexivity.
+Qed.
+
+Lemma failed_from_restores other kitty0 cstyle0 appid0 honours fl nm d :
+  (f_osc176 fl = true -> d_appid d = appid0) ->
+  sem_toks (s_out (failed_from fl nm d)) (fresh_term other kitty0 cstyle0 appid0 honours)
+  = fresh_term other kitty0 (d_ustyle d) appid0 honours
+  /\ s_hung (failed_from fl nm d) = false.
+Proof.
+  intros Hc.
+  destruct fl as [sy un ex kk sx th a176 inb nm']; destruct d as [kf aid us]; cbn in Hc.
+  destruct a176; [rewrite (Hc eq_refl)|]; clear Hc.
+  all: destruct sy, un, ex, kk, sx, th, inb, nm', nm.
+  all: split; reflexivity.
+Qed.
+
 Inductive phase := PRun | PSusp | PClosed.
 
 (* Which operation may follow in which phase.  Rendering or SetAppID while suspended, Resume while
